@@ -781,6 +781,8 @@ class Engine:
             raise Unsupported("assignment target %s" % type(target).__name__)
 
     def coerce(self, v, sort, st, name=""):
+        if isinstance(v, VModel) and hasattr(v, "as_value") and not isinstance(sort, VModel):
+            v = v.as_value()
         if v is NONE and isinstance(sort, REF):
             return VRef(sort.cls, z3.IntVal(0))
         if v is NONE and isinstance(sort, OPT):
@@ -2194,6 +2196,11 @@ class Engine:
             post.env["new_" + m] = newv
         self.spec_mode += 1
         try:
+            for cl in cc.extra.get("ghost_definitions", []):
+                # equations that DEFINE ghost names (uninterpreted functions used by the callers' specifications) in terms of the callee's result: assumed at the
+                # call, no obligation of the callee (a definitional extension, recorded as such)
+                st.assume(self.eval_clause(post, cl))
+                self.assumptions.add("ghost names defined at the call of %s: %s" % (cc.qualname, cl[0] if isinstance(cl, tuple) else "clause"))
             for cl in cc.ensures:
                 st.assume(self.eval_clause(post, cl))
         finally:
